@@ -193,6 +193,10 @@ class World:
                 n = 0
                 for st in steps:
                     op = st[0]
+                    if op == 'byinst':
+                        # which step is performed depends on which instance of its event type the handler is working for
+                        st = st[1][getattr(event, 'ginst', 0) % len(st[1])]
+                        op = st[0]
                     if op == 'y':
                         v = w.val(st[1], eid)
                         if v is not None:
